@@ -7,6 +7,7 @@ import PV.C04.Lemmas
   exactly the constructs the reference predicate (`PV/C04/Spec.lean`) calls invalid, with the kind
   that names the rule, located at the FIRST offending element.
 -/
+set_option linter.unusedSimpArgs false
 namespace PV.C04
 open Spec
 
@@ -562,46 +563,28 @@ theorem checkSig_kind (ps : Sig) (k : Kind) (off : Nat) (h : checkSig ps = some 
       exact ⟨(validateArguments_err _ k off h).1, rfl, rfl, h⟩
 
 
-/-! ### f-strings: the known finding -/
+/-! ### f-strings: a field that begins with `=` (finding fixed in /repo by d717a96) -/
 
-/-- Full statement for one malformed shape: an f-string whose (first) replacement field begins with `=`
-    has no expression before the `=` and must be rejected (CPython: "f-string: expression required
-    before '='"). -/
-def fstr_leading_equals_full : Prop := ∀ rest : List Nat, fstrCheck (123 :: 61 :: rest) ≠ none
-
-/-- It fails on the unchanged code: `f'{={}}'` is accepted (known finding
-    `fstring-delimiter-after-selfdoc-equals`): a bracket after the `=` is still appended to the expression. -/
-theorem fstr_leading_equals_fails : ¬ fstr_leading_equals_full := by
-  intro h
-  exact h [123, 125, 125] (by decide +kernel)
-
-/-- characters that `parse_formatted_value` treats like ordinary expression text -/
-def ordinaryFieldChar (c : Nat) : Bool :=
-  c ≠ 33 && c ≠ 61 && c ≠ 62 && c ≠ 60 && c ≠ 58 && c ≠ 40 && c ≠ 123 && c ≠ 91 && c ≠ 41 && c ≠ 93 &&
-  c ≠ 125 && c ≠ 34 && c ≠ 39 && c ≠ 32 && c ≠ 92
-
-/-- The part that holds: when ordinary expression text follows the leading `=`, the field is rejected
-    (`expecting '}'`, located after that character). -/
-theorem fstr_leading_equals_partial (c : Nat) (rest : List Nat) (hc : ordinaryFieldChar c = true)
-    (hb : oddTrailingBackslash (123 :: 61 :: c :: rest) = false) :
-    fstrCheck (123 :: 61 :: c :: rest) = some (.fstring .unclosedLbrace, 3) := by
+/-- **An f-string whose first replacement field begins with `=` is rejected** (there is no expression
+    before the `=`; CPython: "f-string: expression required before '='").  Full statement; it failed on the
+    pinned commit (`f'{={}}'` was accepted) and holds since fix d717a96 in /repo. -/
+theorem fstr_leading_equals_rejected (rest : List Nat) : fstrCheck (123 :: 61 :: rest) ≠ none := by
   unfold fstrCheck
-  rw [hb]
-  simp only [Bool.false_eq_true, if_false]
-  have hf : 2 * (123 :: 61 :: c :: rest).length + 2 = (2 * rest.length + 5) + 1 + 1 + 1 := by
-    simp only [List.length_cons]; omega
-  rw [hf]
-  clear hf hb
-  generalize 2 * rest.length + 5 = k
-  unfold ordinaryFieldChar at hc
-  simp only [Bool.and_eq_true, decide_eq_true_eq, ne_eq] at hc
-  obtain ⟨⟨⟨⟨⟨⟨⟨⟨⟨⟨⟨⟨⟨⟨h1, h2⟩, h3⟩, h4⟩, h5⟩, h6⟩, h7⟩, h8⟩, h9⟩, h10⟩, h11⟩, h12⟩, h13⟩, h14⟩, h15⟩ := hc
-  cases rest with
-  | nil => simp [fsGo, fvGo, headIs, h1, h2, h3, h4, h5, h6, h7, h8, h9, h10, h11, h12, h13, h14, h15]
-  | cons c2 r2 => simp [fsGo, fvGo, headIs, h1, h2, h3, h4, h5, h6, h7, h8, h9, h10, h11, h12, h13, h14, h15]
+  split
+  · simp
+  · have hf : 2 * (123 :: 61 :: rest).length + 2 = (2 * rest.length + 5) + 1 := by
+      simp only [List.length_cons]; omega
+    rw [hf]
+    generalize 2 * rest.length + 5 = k
+    rw [fsGo]
+    simp only [Nat.not_succ_le_zero, ge_iff_le, Nat.reduceLeDiff, if_false, headIs, decide_true, Bool.true_and,
+      List.isEmpty_cons, Bool.and_false, Bool.false_eq_true]
+    cases h : fvGo k 0 (0 + 1) ⟨[], [], false⟩ (0 + 1) (61 :: rest) with
+    | error e => simp
+    | ok r => exact absurd h (fvGo_leading_equals _ _ _ _ _ _)
 
-example : fstrCheck [123, 61, 121, 125] = some (.fstring .unclosedLbrace, 3) := by decide +kernel
-
+example : fstrCheck [123, 61, 123, 125, 125] = some (.fstring .unclosedLbrace, 3) := by decide +kernel   -- {={}}
+example : fstrCheck [123, 121, 61, 40, 41, 125] = some (.fstring .unclosedLbrace, 4) := by decide +kernel   -- {y=()}
 
 
 /-! ### the lexer's depth counter alone -/
